@@ -98,9 +98,14 @@ def value_object(o):
         v = o.GetAbstractValue()
     except AttributeError:
         return ("uninitialised", type(o).__name__)
+    try:
+        items = tuple((c, tuple(ue)) for c, ue in q.GetCategoryToUnitAndExps().items())
+        joined = tuple(q.GetComposingUnitsJoiningExponents())
+    except Exception as e:
+        items, joined = ("raised", type(e).__name__), ()
     return (
         type(o).__name__, id(q), q.GetUnit(), q.GetCategory(), q.GetQuantityType(),
-        getattr(o, "dimension", None) if hasattr(type(o), "dimension") else None, container(v),
+        getattr(o, "dimension", None) if hasattr(type(o), "dimension") else None, container(v), items, joined,
     )  # fmt: skip
 
 
